@@ -93,6 +93,9 @@ func init() {
 				seq = 0
 			}
 			body = randBytes(rng, n)
+			if rng.Intn(3) == 0 { // TL bodies often end in zero words (flags, empty strings, zero ints)
+				body = make([]byte, n)
+			}
 			env.Vars["auth_key"], env.Vars["body"] = term.Bytes(key), term.Bytes(body)
 			env.Vars["salt"], env.Vars["sid"], env.Vars["mid"], env.Vars["seq"] = term.Int64(salt), term.Int64(sid), term.Int64(mid), term.Int64(int64(seq))
 			return
@@ -117,7 +120,16 @@ func init() {
 						key, salt, sid, mid, seq, body := bindCommon(env, n, 0)
 						cls += fmt.Sprintf(":ack=%v", ack)
 						inf := &envInformator{key: key, salt: salt, sid: sid, seq: seq}
+						// the packet is a function of (key, salt, session, id, seq_no, body) only: whatever else the
+						// message struct carries (a cached key id: right, absent or stale) must not reach the wire
 						m := &messages.Encrypted{Msg: body, MsgID: mid, AuthKeyHash: utils.AuthKeyHash(key)}
+						switch (k + n) % 3 {
+						case 1:
+							m.AuthKeyHash = nil
+						case 2:
+							m.AuthKeyHash = []byte{1, 2, 3, 4, 5, 6, 7, 8}
+							cls += ":stale-key-id-field"
+						}
 						var pkt []byte
 						var e error
 						p := recoverTo(func() { pkt, e = m.Serialize(inf, ack) })
@@ -257,6 +269,9 @@ func init() {
 						add(base[:24], "24 bytes")
 					case "trunc-unaligned":
 						add(base[:24+16*rng.Intn(nb)+1+rng.Intn(15)], "")
+						for cut := 1; cut < 16; cut++ { // every cut inside the last block
+							add(base[:len(base)-cut], fmt.Sprintf("last %d bytes missing", cut))
+						}
 					case "trunc-blocks":
 						for j := 1; j < nb; j++ {
 							add(base[:24+16*j], fmt.Sprintf("%d of %d blocks", j, nb))
